@@ -248,6 +248,7 @@ func (this *DefaultOutputBitStream) Close() error {
 	savedBitIndex := this.availBits
 	savedPosition := this.position
 	savedCurrent := this.current
+	savedWritten := this.written
 
 	// Push last bytes (the very last byte may be incomplete)
 	for shift := uint(56); this.availBits < 64; shift -= 8 {
@@ -264,6 +265,7 @@ func (this *DefaultOutputBitStream) Close() error {
 		this.availBits = savedBitIndex
 		this.position = savedPosition
 		this.current = savedCurrent
+		this.written = savedWritten
 		return err
 	}
 
